@@ -455,6 +455,10 @@ func c13ConfAlgebra(c *Check) {
 				continue
 			}
 			f := fi.FactsAt(ret)
+			// a return of an error value that was just tested non-nil (passing on a helper's error)
+			if tested := (&Facts{FI: fi, Atoms: f.Tested}); tested.HasSame(isKey(es.Key()), func(s *Sym) bool { return s.K == KNil }, false) != nil {
+				continue
+			}
 			ok := false
 			for _, a := range f.Atoms {
 				if a.K == ANe || a.K == ALe {
